@@ -1,7 +1,61 @@
 (** C16 — sparse-matrix operations agree with their dense mathematical meaning.
-    Only statements closed by [exact]; proofs are in Csc/Lemmas*.v. *)
+    Only statements closed by [exact]; the statements themselves are the [stmt_*]
+    definitions of Csc/Spec.v (a file that contains nothing else); proofs are in
+    Csc/Lemmas*.v.  Every theorem holds for all matrices of all sizes over any
+    commutative ring with decidable equality ([Laws O]); [C16_laws_Z]/[C16_laws_R] show the
+    hypothesis is met by the integers (the ring the correspondence runs in) and the reals. *)
 From Coq Require Import List ZArith Reals.
 Require Import Clarabel.Base.Ops Clarabel.Csc.Model Clarabel.Csc.Spec.
+Require Import Clarabel.Csc.LemmasStruct Clarabel.Csc.LemmasAlg.
 
-Theorem C16_placeholder : forall T (A : @csc T), nc (transpose A) = nr A.
-Proof. reflexivity. Qed.
+Theorem C16_laws_Z : Laws OpsZ.
+Proof. split; [exact RingLawsZ | exact Z.eqb_eq]. Qed.
+Theorem C16_laws_R : Laws OpsR.
+Proof. split; [exact RingLawsR | exact Reqb_true]. Qed.
+
+Theorem C16_canonical_char : forall T (O : Ops T), stmt_canonical_char (T:=T).
+Proof. exact @canonical_char_ok. Qed.
+Theorem C16_check_format_iff : forall T, stmt_check_format_iff (T:=T).
+Proof. exact @check_format_iff_ok. Qed.
+Theorem C16_check_format_errors : forall T, stmt_check_format_errors (T:=T).
+Proof. exact @check_format_errors_ok. Qed.
+Theorem C16_decode_encode : forall T, stmt_decode_encode (T:=T).
+Proof. exact @decode_encode_ok. Qed.
+Theorem C16_from_rows : forall T (O : Ops T), stmt_from_rows O.
+Proof. exact @from_rows_ok. Qed.
+Theorem C16_from_triplets : forall T (O : Ops T), stmt_from_triplets O.
+Proof. exact @from_triplets_ok. Qed.
+Theorem C16_canonicalize : forall T (O : Ops T), stmt_canonicalize O.
+Proof. exact @canonicalize_ok. Qed.
+Theorem C16_transpose : forall T (O : Ops T), stmt_transpose O.
+Proof. exact @transpose_ok. Qed.
+Theorem C16_to_triu : forall T (O : Ops T), stmt_to_triu O.
+Proof. exact @to_triu_ok. Qed.
+Theorem C16_is_triu : forall T (O : Ops T), stmt_is_triu O.
+Proof. exact @is_triu_ok. Qed.
+Theorem C16_select_rows : forall T (O : Ops T), stmt_select_rows O.
+Proof. exact @select_rows_ok. Qed.
+Theorem C16_get_entry : forall T (O : Ops T), stmt_get_entry O.
+Proof. exact @get_entry_ok. Qed.
+Theorem C16_set_entry : forall T (O : Ops T), stmt_set_entry O.
+Proof. exact @set_entry_ok. Qed.
+Theorem C16_dropzeros : forall T (O : Ops T), stmt_dropzeros O.
+Proof. exact @dropzeros_ok. Qed.
+Theorem C16_index_to_coord : forall T (O : Ops T), stmt_index_to_coord O.
+Proof. exact @index_to_coord_ok. Qed.
+Theorem C16_hcat : forall T (O : Ops T), stmt_hcat O.
+Proof. exact @hcat_ok. Qed.
+Theorem C16_vcat : forall T (O : Ops T), stmt_vcat O.
+Proof. exact @vcat_ok. Qed.
+Theorem C16_blockdiag2 : forall T (O : Ops T), stmt_blockdiag2 O.
+Proof. exact @blockdiag2_ok. Qed.
+Theorem C16_hvcat_special : forall T, stmt_hvcat_special (T:=T).
+Proof. exact @hvcat_special_ok. Qed.
+Theorem C16_map_vals : forall T (O : Ops T), stmt_map_vals O.
+Proof. exact @map_vals_ok. Qed.
+Theorem C16_gemv : forall T (O : Ops T), stmt_gemv O.
+Proof. exact @gemv_ok. Qed.
+Theorem C16_gemv_T : forall T (O : Ops T), stmt_gemv_T O.
+Proof. exact @gemv_T_ok. Qed.
+Theorem C16_sums : forall T (O : Ops T), stmt_sums O.
+Proof. exact @sums_ok. Qed.
